@@ -436,7 +436,19 @@ def kind_guards(ctx) -> None:
             if arg.endswith('.condition'):
                 inner = any(pol and 'kind' in t and 'INNER' in t and ('is ' in t or '==' in t or ' in ' in t) and 'not' not in t for t, pol in texts)
                 inner = inner or any((not pol) and 'kind' in t and 'INNER' in t and ('is not' in t or '!=' in t) for t, pol in texts)
-                ctx.check(inner, 'C14.kind-guard', fn, 'a join condition is registered as a row filter only for INNER joins (outer joins preserve unmatched rows)', c, key=f'{mname}:condition-filter')
+                helper = False
+                for g, pol in gs:
+                    if isinstance(g, ast.Call) and isinstance(g.func, ast.Attribute) and isinstance(g.func.value, ast.Name) and g.func.value.id in ('self', 'cls') and fn.cls:
+                        found = fn.cls.lookup(g.func.attr)
+                        if found and isinstance(found[1], core.FUNC):
+                            hf = prog.func(f'{found[0].ref}.{g.func.attr}')
+                            left, innerv = _helper_says_outer(prog, hf, 'LEFT'), _helper_says_outer(prog, hf, 'INNER')
+                            # filter() must sit in the arm taken when the helper says "not outer"
+                            if left is True and innerv is False and pol is False and core.src(g.args[0]) in ('source', arg.rsplit('.', 1)[0]):
+                                helper = True
+                # an explicit test of this join's own kind is enough only if the operands are inspected as well
+                operands = any('left' in t and 'right' in t for t, _ in texts)
+                ctx.check((inner and operands) or helper, 'C14.kind-guard', fn, 'a join condition is registered as a row filter only when this join and every join nested in its operands is inner: outer joins preserve unmatched rows (also below an inner join stacked on top)', c, key=f'{mname}:condition-filter')
             else:
                 reads_kind = any(_reads_join_kind(prog, resolver, fn, g, 2) for g, _ in gs)
                 # polarity: with an outer (LEFT) join in the source the filter branch must be infeasible, with INNER feasible
